@@ -157,21 +157,33 @@ func scriptAuth(e *harness.ProxyEnv, x *explore.Exec, al authAlphabet) {
 	}
 }
 
-var c01Alphabet = authAlphabet{
-	Validate: []harness.AuthAnswer{ans(200, "{}"), ans(401, `{"error":"invalid"}`), ans(500, "boom")},
-	Refresh:  []harness.AuthAnswer{ans(201, `{"access_token":"new-access-token","expires_in":3600}`), ans(401, `{"error":"revoked"}`), ans(403, "denied"), ans(500, "boom")},
-	Profile:  []harness.AuthAnswer{ans(200, `{"email":"x","groups":["eng"]}`), ans(200, `{"email":"x","groups":[]}`), ans(500, "boom"), ans(200, "malformed{")},
+func c01Alphabet(thorough bool) authAlphabet {
+	a := authAlphabet{
+		Validate: []harness.AuthAnswer{ans(200, "{}"), ans(401, `{"error":"invalid"}`), ans(500, "boom"), ans(503, "unavailable")},
+		Refresh:  []harness.AuthAnswer{ans(201, `{"access_token":"new-access-token","expires_in":3600}`), ans(401, `{"error":"revoked"}`), ans(403, "denied"), ans(500, "boom"), ans(503, "unavailable")},
+		Profile:  []harness.AuthAnswer{ans(200, `{"email":"x","groups":["eng"]}`), ans(200, `{"email":"x","groups":[]}`), ans(500, "boom"), ans(200, "malformed{"), ans(503, "unavailable")},
+	}
+	if thorough {
+		a.Validate = append(a.Validate, ans(429, "slow down"))
+		a.Refresh = append(a.Refresh, ans(429, "slow down"))
+		a.Profile = append(a.Profile, ans(429, "slow down"))
+	}
+	return a
 }
 
 func c01Run(c *fw.Ctx) {
 	vtime.SetManual(harness.T0)
 	defer vtime.SetReal()
 	pols := c01Policies(c.Thorough())
-	methods := []string{"GET", "POST", "OPTIONS"}
-	hostsBound := []string{hostA, hostB}
+	methods := []string{"GET", "OPTIONS"}
+	hostsBound := []string{hostA, hostB, ""}
+	alphabet := c01Alphabet(false)
 	if c.Thorough() {
-		hostsBound = []string{hostA, hostB, "A.SSO.TEST"}
+		methods = []string{"GET", "POST", "OPTIONS"}
+		hostsBound = []string{hostA, hostB, "", "A.SSO.TEST"}
+		alphabet = c01Alphabet(true)
 	}
+	graceTTL := 3 * time.Hour // the proxy's default grace period
 	other, _ := aead.NewMiscreantCipher(harness.OtherSecret)
 	ec := &envCache{}
 	defer ec.close()
@@ -200,11 +212,17 @@ func c01Run(c *fw.Ctx) {
 			l, r, v := x.Choose("lifetime", 2), x.Choose("refresh", 2), x.Choose("valid", 2)
 			user = c01Users[x.Choose("user", len(c01Users))]
 			rt := []string{"refresh-token", ""}[x.Choose("refresh-token", 2)]
-			sess = &sessions.SessionState{ProviderSlug: slug, ProviderType: "sso", AccessToken: "access-token", RefreshToken: rt,
+			var graceStart time.Time
+			graceDesc := "none"
+			if (r == 1 || v == 1) && x.Choose("grace-start", 2) == 1 {
+				// an outage episode that began longer ago than the grace TTL
+				graceStart, graceDesc = harness.T0.Add(-graceTTL-time.Minute), "older-than-grace-ttl"
+			}
+			sess = &sessions.SessionState{GracePeriodStart: graceStart, ProviderSlug: slug, ProviderType: "sso", AccessToken: "access-token", RefreshToken: rt,
 				LifetimeDeadline: pick(l), RefreshDeadline: pick(r), ValidDeadline: pick(v),
 				Email: user.Email, User: strings.Split(user.Email, "@")[0], Groups: user.Groups, AuthorizedUpstream: bound}
 			cookieVal = e.Seal(sess)
-			desc = fmt.Sprintf("genuine{slug=%s bound=%s lifetime=%s refresh=%s valid=%s user=%s refresh_token=%v}", slug, bound, fp(l), fp(r), fp(v), user.Why, rt != "")
+			desc = fmt.Sprintf("genuine{slug=%s bound=%s lifetime=%s refresh=%s valid=%s user=%s refresh_token=%v grace_start=%s}", slug, bound, fp(l), fp(r), fp(v), user.Why, rt != "", graceDesc)
 		case 1:
 			desc = "absent"
 		case 2:
@@ -216,7 +234,7 @@ func c01Run(c *fw.Ctx) {
 			cookieVal, _ = sessions.MarshalSession(s, other)
 			desc = "sealed-under-another-key"
 		}
-		scriptAuth(e, x, c01Alphabet)
+		scriptAuth(e, x, alphabet)
 		hdr := http.Header{}
 		if cookieVal != "" {
 			hdr.Set("Cookie", harness.CookieName+"="+cookieVal)
@@ -237,7 +255,10 @@ func c01Run(c *fw.Ctx) {
 			cp.AuthorizedUpstream = hostA
 			sc.Session = &cp
 		}
-		may, why := sessionMayServe(p, sc, resp.Calls, func() bool { return true })
+		may, why := sessionMayServe(p, sc, resp.Calls, func() bool {
+			// grace: only within the grace TTL of the first 429/503 of the episode (none recorded = it starts now)
+			return sess.GracePeriodStart.IsZero() || now.Before(sess.GracePeriodStart.Add(graceTTL))
+		})
 		served := resp.Served()
 		isAuthOnly := strings.HasPrefix(path, "/oauth2/auth")
 		caseDesc := func() map[string]interface{} {
@@ -347,9 +368,9 @@ func init() {
 		ID:    "C01",
 		Level: "exploration",
 		Rule: "full cartesian product, on a proxy built like cmd/sso-proxy (YAML -> SetUpstreamConfigs -> proxy.New, real cookie store/AES-SIV cipher/SSOProvider/reverse proxy to recording backends over loopback): " +
-			"policy {rule subsets of address/domain/group} x {no skip-auth, ^/public/, +unanchored /public2/} (x preflight in thorough); request {GET,POST,OPTIONS} x 12 paths (incl. encoded traversal, query/fragment look-alikes, /oauth2/auth, /favicon.ico, case variant) x XHR; " +
-			"cookie {absent, garbage, sealed under another key, genuine x slug{right,wrong} x bound host{this,other upstream(,case variant)} x lifetime/refresh/valid each {future,past} x user{address-rule,domain-rule,group-rule,no-rule,empty} x refresh token{yes,no}}; " +
-			"authenticator answers chosen on demand at every back-channel call: validate{200,401,500} refresh{201,401,403,500} profile{in group,in none,500,malformed}. " +
+			"policy {rule subsets of address/domain/group} x {no skip-auth, ^/public/, +unanchored /public2/} (x preflight in thorough); request {GET,OPTIONS(,POST)} x 12 paths (incl. encoded traversal, query/fragment look-alikes, /oauth2/auth, /favicon.ico, case variant) x XHR; " +
+			"cookie {absent, garbage, sealed under another key, genuine x slug{right,wrong} x bound host{this,other upstream,empty(,case variant)} x lifetime/refresh/valid each {future,past} x user{address-rule,domain-rule,group-rule,no-rule,empty} x refresh token{yes,no}}; " +
+			"authenticator answers chosen on demand at every back-channel call: validate{200,401,500,503(,429)} refresh{201,401,403,500,503(,429)} profile{in group,in none,500,malformed,503(,429)}; for sessions with a due check the recorded outage start is {none, older than the grace TTL}. " +
 			"Oracle (one direction, 'only if'): backend reached or 202 on /oauth2/auth => reference session model admits (or the received path matches a configured skip pattern); otherwise status in {302 to the configured sign-in URL, 301, 4xx, 5xx} and no upstream content. " +
 			"distinct_nontrivial = distinct (rule kind, method, cookie class, skip match, check class, outcome) signatures",
 		Assumptions:    []string{"AES-SIV (miscreant) and net/http are trusted", "virtual clock through the overlay's time rewrite", "values outside the listed alphabets are not covered"},
